@@ -48,6 +48,21 @@ impl W {
             w => w.clone(),
         }
     }
+    /// the same node with its children replaced, slot by slot
+    pub fn with_children(&self, ch: &[usize]) -> W {
+        match self {
+            W::InjL(_) => W::InjL(ch[0]),
+            W::InjR(_) => W::InjR(ch[0]),
+            W::Take(_) => W::Take(ch[0]),
+            W::Drop(_) => W::Drop(ch[0]),
+            W::Disc1(_) => W::Disc1(ch[0]),
+            W::Comp(..) => W::Comp(ch[0], ch[1]),
+            W::Case(..) => W::Case(ch[0], ch[1]),
+            W::Pair(..) => W::Pair(ch[0], ch[1]),
+            W::Disc(..) => W::Disc(ch[0], ch[1]),
+            w => w.clone(),
+        }
+    }
 }
 
 /// reference encoder of naturals (n ≥ 1)
